@@ -694,8 +694,9 @@ def run_property(pid, instances, tier, seed, meta):
     """instances: list of dict(name, fn, params, opts).  Writes evidence, prints verdict lines, returns exit code."""
     global _INSTANCES
     t0 = time.time()
-    os.makedirs(os.path.join(VERIF, "evidence"), exist_ok=True)
-    os.makedirs(os.path.join(VERIF, "replays"), exist_ok=True)
+    outdir = os.environ.get("VERIF_OUT") or VERIF          # VERIF_OUT: trials of seeded changes only
+    os.makedirs(os.path.join(outdir, "evidence"), exist_ok=True)
+    os.makedirs(os.path.join(outdir, "replays"), exist_ok=True)
     for inst in instances:
         inst["pid"] = pid
     _INSTANCES = instances
@@ -779,7 +780,7 @@ def run_property(pid, instances, tier, seed, meta):
         rp = dict(property=pid, harness=inst["harness"], name=inst["name"], params=inst["params"], label=v["label"],
                   inputs=v["inputs"], native_outcome=v["native"], detail=v["detail"])
         h = hashlib.sha1(json.dumps(rp, sort_keys=True, default=str).encode()).hexdigest()[:10]
-        path = os.path.join(VERIF, "replays", f"{pid}-{h}.json")
+        path = os.path.join(outdir, "replays", f"{pid}-{h}.json")
         with open(path, "w") as f:
             json.dump(rp, f, indent=1, default=str)
         replay_paths.append(path)
@@ -819,7 +820,7 @@ def run_property(pid, instances, tier, seed, meta):
         assumptions=meta.get("assumptions", []),
         wall_s=round(wall, 2), violations=len(seen),
     )
-    with open(os.path.join(VERIF, "evidence", f"{pid}.json"), "w") as f:
+    with open(os.path.join(outdir, "evidence", f"{pid}.json"), "w") as f:
         json.dump(ev, f, indent=1, default=str)
     for l in out_lines:
         print(l)
